@@ -1595,10 +1595,16 @@ class Transaction(object):
                 self.inputs[sign_id].redeemscript != 'unknown' and not is_coinbase:
             raise TransactionError("Redeem script missing")
 
+        script_code = self.inputs[sign_id].redeemscript
+        if self.inputs[sign_id].script_type in ['sig_pubkey', 'p2sh_p2wpkh'] and self.inputs[sign_id].locking_script:
+            # BIP143: the script code of a single key input is the P2PKH script of its key, also when the caller
+            # supplied the redeem script 0014<key hash> of a nested input
+            script_code = self.inputs[sign_id].locking_script
+
         ser_tx = \
             self.version[::-1] + hash_prevouts + hash_sequence + self.inputs[sign_id].prev_txid[::-1] + \
             self.inputs[sign_id].output_n[::-1] + \
-            varstr(self.inputs[sign_id].redeemscript) + int(self.inputs[sign_id].value).to_bytes(8, 'little') + \
+            varstr(script_code) + int(self.inputs[sign_id].value).to_bytes(8, 'little') + \
             self.inputs[sign_id].sequence.to_bytes(4, 'little') + \
             hash_outputs + self.locktime.to_bytes(4, 'little') + hash_type.to_bytes(4, 'little')
         return ser_tx
